@@ -7,6 +7,18 @@ HERE = os.path.dirname(os.path.dirname(os.path.abspath(__file__)))
 TECH = "deterministic simulation with fault injection: seeded search over schedules/fault sequences of the real code (AST-instrumented copy) inside a testing/synctest bubble under a gate scheduler; history oracles / reference models; tape shrinking and exact replay"
 
 CLAIMED = {
+    "C07": dict(
+        text="Seeded schedule/fault search over producers x consumers x loader/free-node goroutines of the real Buffered/ChannelQueue on a fake clock, configurations drawn per run, fair settle phase; history oracles for invented/duplicate/lost, real-time FIFO, bound, non-blocking, error necessity, timeout honesty, conservation and nothing-stranded. Evidence bounded by explored schedules.",
+        note="Oracles flag only definite violations from invoke/return stamps; the nothing-stranded clause is evaluated for capacity>=1 under fair scheduling up to a bounded number of retrieval attempts; statement-granular SC interleavings; trusted: synctest fake clock, instrumenter, harness/c07_queues.go.",
+        ref="DESIGN.md §5.7"),
+    "C08": dict(
+        text="Seeded schedule search over 1..16 producers x 1..16 consumers on ConcurrentQueue/ConcurrentStack wrapping the real LinkedListQueue (statement-level preemption inside it) or a deliberately racy harness queue; recorded histories checked with porcupine against a sequential FIFO/LIFO model plus direct duplicate/lost/invented checks.",
+        note="Linearizability is decided per recorded history (<=~40 operations, porcupine timeout => inconclusive, never reported); coverage of schedules is sampled; trusted: porcupine v1.3.0, instrumenter, harness/c08_concurrent.go.",
+        ref="DESIGN.md §5.8"),
+    "C09": dict(
+        text="Seeded schedule/fault search over the real DefaultWorkerPool + job queue + spawn loop + workers + timers on a fake clock with panicking/slow jobs and concurrent submitters within the property's configuration quantifier; oracles: rejected-never-runs, at-most-once, exactly-once by a fair virtual-time horizon, concurrency gauge, panic-handler log, error necessity, post-close error.",
+        note="Exactly-once is a bounded-liveness verdict: fair round-robin settle phase, horizon 2000 time units above every configured interval; trusted: synctest fake clock, instrumenter, harness/c09_pool.go.",
+        ref="DESIGN.md §5.9"),
     "C15": dict(
         text="Seeded schedule search over one closer x 1..8 users per object kind with statement-level preemption and site-targeted strategies; oracles: no goroutine/call panic, nothing left blocked at fair quiescence, post-close results. Evidence of absence bounded by the explored schedules (counts in the evidence file).",
         note="Statement-granular sequentially consistent interleavings; runtime wake-up order of several blocked receivers and select among simultaneously ready cases are deterministic but not explored; trusted: Go runtime/synctest fake clock, the instrumenter's rewrites (validated by the transparency self-test), the oracles in harness/c15_shutdown.go.",
